@@ -121,6 +121,21 @@ pub fn zlib_fixed_run(data: &[u8]) -> Vec<u8> {
     v
 }
 
+/// A TRUNCATED zlib stream: one fixed-Huffman block with the literals `lits`, then `matches` x <length 258, distance 1>, and nothing more (no
+/// end-of-block, no Adler-32).  With 2 literals and 127+ matches the inflater's 32 KiB output buffer is exactly full while a match is still
+/// pending inside it: the end-of-sequence flush then produces more rows AND fails.
+pub fn zlib_fixed_run_truncated(lits: &[u8], matches: usize) -> Vec<u8> {
+    let mut v = vec![0x78, 0x01];
+    let mut w = BitW::new();
+    w.bits(1, 1);
+    w.bits(1, 2);
+    for &l in lits { w.fixed_lit(l as u32); }
+    for _ in 0..matches { w.fixed_lit(285); w.code(0, 5); }
+    w.align();
+    v.extend_from_slice(&w.out);
+    v
+}
+
 /// stored blocks of `block` bytes each, returned as the byte strings to put into consecutive IDAT chunks
 /// (chunk boundaries = block boundaries)
 pub fn zlib_stored_pieces(data: &[u8], block: usize) -> Vec<Vec<u8>> {
